@@ -101,13 +101,19 @@ def run(ctx):
         base = g.function()
         pts = insertion_points(base)
         # keep points inside the function body only (depth >= 1); skip right after declarations prefix is fine in C99
-        k = rng.randint(1, 4)
+        k = rng.randint(1, 4) if i % 3 != 1 else rng.randint(2, 4)
         chosen = sorted(rng.sample(pts, min(k, len(pts))), reverse=True)
         src = base
         deep = False
         ins = []
+        # every third case inserts the SAME statement (same text, same names) at all chosen positions: copies that
+        # print alike must each be removed
+        same = None
+        if i % 3 == 1 and len(chosen) >= 2:
+            same = rng.choice([s_ for s_ in unsupported_pool(100) if not re.match(r'\s*(int|long|char|typedef|struct|L\d+:|goto)\b', s_)])
+            ctx.count('same_statement_inserted_twice')
         for j, (pos, depth) in enumerate(chosen):
-            stmt = rng.choice(unsupported_pool(100 + j))
+            stmt = same or rng.choice(unsupported_pool(100 + j))
             deep = deep or depth >= 2
             ins.append(stmt)
             src = src[:pos] + ' ' + stmt + ' ' + src[pos:]
